@@ -37,6 +37,8 @@ for _extra in ("type-unset", "name-unset"):
     for _side in ("col1", "col2"):
         for _inl in ("inline", "block"):
             CELLS.append(f"endpoint-detached/delete-obj+{_extra}/{_side}/{_inl}")
+CELLS.append("detached-lookup/abstract-table-never-added")
+CELLS.append("detached-lookup/column-of-detached-abstract-table")
 CELLS.append("detached-lookup/table-never-added+nameless-column")
 CELLS.append("detached-lookup/column-without-table+type-unset")
 CELLS.append("detached-lookup/column-of-detached-table+type-unset")
@@ -466,7 +468,13 @@ class C17Engine(C10.C10Engine):
 
         if kind == "detached-lookup":
             reach = parts[1]
-            if reach == "table-never-added+nameless-column":
+            if reach == "abstract-table-never-added":
+                o = C.Table("never", columns=[C.Column("id", "int")], abstract=True)
+                self.expect_raises(cell, "table.get_refs", lambda: o.get_refs(), UDE, ctx)
+            elif reach == "column-of-detached-abstract-table":
+                o = C.Table("never", columns=[C.Column("id", "int")], abstract=True)
+                self.expect_raises(cell, "column.get_refs", lambda: o.columns[0].get_refs(), UDE, ctx)
+            elif reach == "table-never-added+nameless-column":
                 o = C.Table("never", columns=[C.Column("id", "int"), C.Column(None, "int")])
                 self.expect_raises(cell, "table.get_refs", lambda: o.get_refs(), UDE, ctx)
             elif reach == "column-without-table+type-unset":
